@@ -79,6 +79,8 @@ Record chan := {
   c_tags : list bytes;                     (* consumer_tags *)
   c_cbs : list bytes;                      (* keys of _consumer_callbacks *)
   c_confirm : bool;
+  c_ret : option Z;                        (* content of a returned message still to come: Some (-1)
+                                              the header, Some n (n > 0) that many body bytes *)
   c_pubs : Z                               (* Basic.Publish frames written so far (the broker's
                                               delivery-tag counter for confirms) *)
 }.
@@ -96,7 +98,7 @@ Record sys := {
 
 Definition new_chan : chan :=
   {| c_state := OPEN; c_errs := []; c_req := []; c_resp := []; c_inbound := [];
-     c_tags := []; c_cbs := []; c_confirm := false; c_pubs := 0 |}.
+     c_tags := []; c_cbs := []; c_confirm := false; c_ret := None; c_pubs := 0 |}.
 
 Fixpoint get_chan (l : list (nat * chan)) (c : nat) : option chan :=
   match l with
@@ -161,29 +163,29 @@ Fixpoint del_tag (t : bytes) (l : list bytes) : list bytes :=   (* list.remove: 
 
 Definition with_state (v : chan) (x : st) : chan :=
   {| c_state := x; c_errs := c_errs v; c_req := c_req v; c_resp := c_resp v;
-     c_inbound := c_inbound v; c_tags := c_tags v; c_cbs := c_cbs v; c_confirm := c_confirm v; c_pubs := c_pubs v |}.
+     c_inbound := c_inbound v; c_tags := c_tags v; c_cbs := c_cbs v; c_confirm := c_confirm v; c_ret := c_ret v; c_pubs := c_pubs v |}.
 Definition with_errs (v : chan) (x : list err) : chan :=
   {| c_state := c_state v; c_errs := x; c_req := c_req v; c_resp := c_resp v;
-     c_inbound := c_inbound v; c_tags := c_tags v; c_cbs := c_cbs v; c_confirm := c_confirm v; c_pubs := c_pubs v |}.
+     c_inbound := c_inbound v; c_tags := c_tags v; c_cbs := c_cbs v; c_confirm := c_confirm v; c_ret := c_ret v; c_pubs := c_pubs v |}.
 Definition with_rpc (v : chan) (rq : list (fname * nat)) (rs : list (nat * list frame)) : chan :=
   {| c_state := c_state v; c_errs := c_errs v; c_req := rq; c_resp := rs;
-     c_inbound := c_inbound v; c_tags := c_tags v; c_cbs := c_cbs v; c_confirm := c_confirm v; c_pubs := c_pubs v |}.
+     c_inbound := c_inbound v; c_tags := c_tags v; c_cbs := c_cbs v; c_confirm := c_confirm v; c_ret := c_ret v; c_pubs := c_pubs v |}.
 Definition with_inbound (v : chan) (x : list frame) : chan :=
   {| c_state := c_state v; c_errs := c_errs v; c_req := c_req v; c_resp := c_resp v;
-     c_inbound := x; c_tags := c_tags v; c_cbs := c_cbs v; c_confirm := c_confirm v; c_pubs := c_pubs v |}.
+     c_inbound := x; c_tags := c_tags v; c_cbs := c_cbs v; c_confirm := c_confirm v; c_ret := c_ret v; c_pubs := c_pubs v |}.
 Definition with_tags (v : chan) (x : list bytes) : chan :=
   {| c_state := c_state v; c_errs := c_errs v; c_req := c_req v; c_resp := c_resp v;
-     c_inbound := c_inbound v; c_tags := x; c_cbs := c_cbs v; c_confirm := c_confirm v; c_pubs := c_pubs v |}.
+     c_inbound := c_inbound v; c_tags := x; c_cbs := c_cbs v; c_confirm := c_confirm v; c_ret := c_ret v; c_pubs := c_pubs v |}.
 Definition with_cbs (v : chan) (x : list bytes) : chan :=
   {| c_state := c_state v; c_errs := c_errs v; c_req := c_req v; c_resp := c_resp v;
-     c_inbound := c_inbound v; c_tags := c_tags v; c_cbs := x; c_confirm := c_confirm v; c_pubs := c_pubs v |}.
+     c_inbound := c_inbound v; c_tags := c_tags v; c_cbs := x; c_confirm := c_confirm v; c_ret := c_ret v; c_pubs := c_pubs v |}.
 Definition with_pubs (v : chan) (x : Z) : chan :=
   {| c_state := c_state v; c_errs := c_errs v; c_req := c_req v; c_resp := c_resp v;
      c_inbound := c_inbound v; c_tags := c_tags v; c_cbs := c_cbs v; c_confirm := c_confirm v;
-     c_pubs := x |}.
+     c_ret := c_ret v; c_pubs := x |}.
 Definition with_confirm (v : chan) (x : bool) : chan :=
   {| c_state := c_state v; c_errs := c_errs v; c_req := c_req v; c_resp := c_resp v;
-     c_inbound := c_inbound v; c_tags := c_tags v; c_cbs := c_cbs v; c_confirm := x; c_pubs := c_pubs v |}.
+     c_inbound := c_inbound v; c_tags := c_tags v; c_cbs := c_cbs v; c_confirm := x; c_ret := c_ret v; c_pubs := c_pubs v |}.
 
 (* ---------- the reader side: Channel.on_frame ---------- *)
 Definition is_content (n : fname) : bool :=
@@ -195,12 +197,25 @@ Definition close_channel (s : sys) (c : nat) (v : chan) (code : Z) : sys :=
   upd s1 c {| c_state := CLOSED;
               c_errs := c_errs v ++ [{| e_kind := EChan; e_code := Some code |}];
               c_req := c_req v; c_resp := c_resp v; c_inbound := []; c_tags := [];
-              c_cbs := c_cbs v; c_confirm := c_confirm v; c_pubs := c_pubs v |}.
+              c_cbs := c_cbs v; c_confirm := c_confirm v; c_ret := c_ret v; c_pubs := c_pubs v |}.
 
-Definition on_frame (s : sys) (c : nat) (f : frame) : sys :=
-  match get_chan (s_chans s) c with
-  | None => s                                  (* not registered: dropped *)
-  | Some v =>
+Definition with_ret (v : chan) (x : option Z) : chan :=
+  {| c_state := c_state v; c_errs := c_errs v; c_req := c_req v; c_resp := c_resp v;
+     c_inbound := c_inbound v; c_tags := c_tags v; c_cbs := c_cbs v; c_confirm := c_confirm v;
+     c_ret := x; c_pubs := c_pubs v |}.
+
+(* Channel._returned_content: with the content of a returned message still to come (`left` < 0:
+   its header; > 0: that many body bytes), is this frame part of it?  Some r: yes, r is what
+   is still to come afterwards *)
+Definition ret_content (lft : Z) (f : frame) : option (option Z) :=
+  if (lft <? 0) && fname_eqb (f_name f) NHeader
+  then Some (if 0 <? f_num f then Some (f_num f) else None)
+  else if (0 <? lft) && fname_eqb (f_name f) NBody
+  then Some (let l' := lft - Z.of_nat (length (f_str f)) in if 0 <? l' then Some l' else None)
+  else None.
+
+(* the rest of Channel.on_frame, for a frame that is not content of a returned message *)
+Definition on_frame_plain (s : sys) (c : nat) (v : chan) (f : frame) : sys :=
     match req_get (c_req v) (f_name f) with
     | Some u =>                                (* Rpc.on_frame claims it *)
       match resp_get (c_resp v) u with
@@ -213,12 +228,28 @@ Definition on_frame (s : sys) (c : nat) (f : frame) : sys :=
            | NCancel | NCancelOk => upd s c (with_tags v (del_tag (f_str f) (c_tags v)))
            | NConsumeOk => upd s c (with_tags v (if mem_tag (f_str f) (c_tags v) then c_tags v
                                                  else c_tags v ++ [f_str f]))
-           | NReturn => upd s c (with_errs v (c_errs v ++ [{| e_kind := EMsg; e_code := Some (f_num f) |}]))
+           | NReturn => upd s c (with_ret (with_errs v (c_errs v ++ [{| e_kind := EMsg; e_code := Some (f_num f) |}]))
+                                          (Some (-1)))      (* its content follows *)
            | NChClose => close_channel s c v (f_num f)
            | NFlow => (* write_frame: check_for_errors first, then FlowOk; errors end the reader's handler *)
              s
            | _ => s
            end
+    end.
+
+Definition on_frame (s : sys) (c : nat) (f : frame) : sys :=
+  match get_chan (s_chans s) c with
+  | None => s                                  (* not registered: dropped *)
+  | Some v =>
+    match c_ret v with
+    | None => on_frame_plain s c v f
+    | Some lft =>
+      match ret_content lft f with
+      | Some r =>                              (* never offered to a waiting request *)
+        upd s c (with_inbound (with_ret v r) (c_inbound v ++ [f]))
+      | None =>                                (* something else: the return's content is over *)
+        on_frame_plain (upd s c (with_ret v None)) c (with_ret v None) f
+      end
     end
   end.
 
@@ -281,7 +312,7 @@ Definition chan_check (s : sys) (c : nat) (v : chan) : sys * chan * res unit :=
   match conn_check s with
   | (s', Raise e) =>
     (s', {| c_state := CLOSED; c_errs := c_errs v; c_req := c_req v; c_resp := c_resp v;
-            c_inbound := []; c_tags := []; c_cbs := c_cbs v; c_confirm := c_confirm v; c_pubs := c_pubs v |}, Raise e)
+            c_inbound := []; c_tags := []; c_cbs := c_cbs v; c_confirm := c_confirm v; c_ret := c_ret v; c_pubs := c_pubs v |}, Raise e)
   | (s', Ok _) =>
     match c_errs v with
     | e :: rest =>
